@@ -30,7 +30,7 @@ Z40 = '0' * 40
 
 # devs: tuple of (major, minor|None) ; stabs: tuple of (major, minor) ;
 # hotfix: 'none' | 'orphan' | 'online'
-Shape = namedtuple('Shape', 'devs stabs hotfix')
+Shape = namedtuple('Shape', 'devs stabs hotfix rename', defaults=(False,))
 
 STAB_MICRO = 4
 
@@ -124,6 +124,9 @@ class Scratch:
             name = 'development/' + vname(v)
             g('checkout', '-q', '-b', name, prev)
             add_file('file_' + name.replace('/', '_'), name + '\n')
+            if shape.rename and v == sorted(shape.devs,
+                                            key=dev_sort_key)[-1]:
+                g('mv', 'shared.txt', 'shared_renamed.txt')
             g('commit', '-q', '-m', 'adds file on ' + name)
             prev = name
         _, hot = shape_branches(shape)
